@@ -25,14 +25,14 @@ def emission_loops_total(ctx, clause):
             n += 1
             bad = [y for y in ast.walk(l) if isinstance(y, (ast.If, ast.Continue, ast.Break, ast.Return, ast.Try, ast.IfExp))
                    and y is not l]
-            key = "R-LOOP|emission|%s|%s" % (f.short, norm(l.iter if isinstance(l, ast.For) else l.test)[:50])
+            key = "R-LOOP|emission|%s|%s" % (f.short, f.key(l.iter if isinstance(l, ast.For) else l.test)[:50])
             obs.append(Ob(clause, "R-LOOP", key, f.loc(l), not bad,
                           "emission loop over `%s` is total" % norm(l.iter if isinstance(l, ast.For) else l.test)[:50] if not bad else
                           "emission loop over `%s` contains %s at %s: some element may not be emitted" % (
                               norm(l.iter)[:40] if isinstance(l, ast.For) else "?", type(bad[0]).__name__, f.loc(bad[0]))))
         for c in walk_own(f.node):
             if isinstance(c, (ast.ListComp, ast.GeneratorExp, ast.SetComp)) and any(g.ifs for g in c.generators):
-                obs.append(Ob(clause, "R-LOOP", "R-LOOP|emission-filter|%s|%s" % (f.short, norm(c)[:50]), f.loc(c), False,
+                obs.append(Ob(clause, "R-LOOP", "R-LOOP|emission-filter|%s|%s" % (f.short, f.key(c)[:50]), f.loc(c), False,
                               "comprehension `%s` filters the elements to emit" % norm(c)[:50]))
     return obs, n
 
